@@ -51,7 +51,16 @@ func (m *Mutex) TryLock() bool {
 	return true
 }
 
+// Unlock releases the mutex and is then a scheduling point of its own: code
+// that follows an unlock without further synchronisation ("check outside the
+// lock") must be separable from it by other goroutines, as on the real runtime.
 func (m *Mutex) Unlock() {
+	m.UnlockQuiet()
+	S.Pre("unlocked", m.id, "")
+}
+
+// UnlockQuiet: no scheduling point after the release (the simulator's own shims).
+func (m *Mutex) UnlockQuiet() {
 	s := S
 	s.check()
 	s.ev("unlock", m.ident(), "")
@@ -100,6 +109,11 @@ func (m *RWMutex) Lock() {
 }
 
 func (m *RWMutex) Unlock() {
+	m.UnlockQuiet()
+	S.Pre("unlocked", m.id, "w")
+}
+
+func (m *RWMutex) UnlockQuiet() {
 	s := S
 	s.check()
 	s.ev("unlock", m.ident(), "w")
@@ -127,6 +141,11 @@ func (m *RWMutex) RLock() {
 }
 
 func (m *RWMutex) RUnlock() {
+	m.rUnlockQuiet()
+	S.Pre("unlocked", m.id, "r")
+}
+
+func (m *RWMutex) rUnlockQuiet() {
 	s := S
 	s.check()
 	s.ev("unlock", m.ident(), "r")
@@ -243,7 +262,12 @@ func (c *Cond) Wait() {
 	s.check()
 	s.ev("cond-wait", c.ident(), "")
 	c.waiters = append(c.waiters, s.cur)
-	c.L.Unlock()
+	// (unlock and park are one atomic step: no scheduling point in between)
+	if q, ok := c.L.(interface{ UnlockQuiet() }); ok {
+		q.UnlockQuiet()
+	} else {
+		c.L.Unlock()
+	}
 	s.park(fmt.Sprintf("cond #%d", c.id))
 	c.L.Lock()
 }
